@@ -696,4 +696,63 @@ theorem eqAttrNames_nodup {t : OType} (hnd : ((posAttrs t).map (·.name)).Nodup)
   · simp only [hd, if_true]; exact (dedup_nodup _).filter _
   · simp only [hd, Bool.false_eq_true, if_false]; exact hnd
 
+/-! ### makeValueHash and the trimmed / denoted values -/
+
+theorem mvh_nil (attrs : List Attr) : makeValueHash attrs [] = [] := by cases attrs <;> rfl
+
+theorem skips_of_isDefault {a : Attr} {v : Val} (h : a.isDefault v = true) : skips a v = true := by
+  unfold Attr.isDefault at h
+  have hv : a.value = some v := by simpa using h
+  simp [skips, Attr.hasValue, hv]
+
+/-- the values `PositionalFromHash` trims are values `makeValueHash` leaves out anyway -/
+theorem mvh_trim (req : Nat) (attrs : List Attr) (va : List Val) :
+    makeValueHash attrs (trim req attrs va) = makeValueHash attrs va := by
+  induction va generalizing req attrs with
+  | nil => cases attrs <;> simp [trim]
+  | cons v vs ih =>
+    cases attrs with
+    | nil => simp [trim]
+    | cons a as =>
+      have ih' := ih (req - 1) as
+      unfold trim
+      cases hr : trim (req - 1) as vs with
+      | nil =>
+        rw [hr, mvh_nil] at ih'
+        by_cases hc : (req == 0 && a.isDefault v) = true
+        · have hd : a.isDefault v = true := by simp at hc; exact hc.2
+          simp only [hc, if_true, mvh_nil, mvh_cons, skips_of_isDefault hd, ← ih']
+        · simp only [hc, mvh_cons, ← ih']
+          simp [mvh_cons, mvh_nil]
+      | cons x xs =>
+        rw [hr] at ih'
+        simp only [mvh_cons, ih']
+
+/-- the implicit values of the positions that were not given are values `makeValueHash` leaves out -/
+theorem mvh_den {attrs : List Attr} {vs : List Val}
+    (h : ∀ i a, attrs[i]? = some a → vs.length ≤ i → a.optional = true) :
+    makeValueHash attrs (den attrs vs) = makeValueHash attrs vs := by
+  induction attrs generalizing vs with
+  | nil => simp [den]
+  | cons a as ih =>
+    cases vs with
+    | nil =>
+      have hopt : a.optional = true := h 0 a rfl (by simp)
+      have hs : skips a a.implicitT = true := by
+        unfold Attr.optional Attr.hasValue at hopt
+        unfold skips Attr.implicitT Attr.hasValue
+        by_cases hk : a.kind = .givenOrDerived
+        · simp [hk]
+        · simp only [hk, beq_iff_eq, Bool.false_or, Bool.or_eq_true] at hopt
+          obtain ⟨x, hx⟩ := Option.isSome_iff_exists.mp (by simpa [hk] using hopt)
+          simp [hk, hx]
+      simp only [den_nil_cons, mvh_cons, hs, if_true, mvh_nil]
+      have := ih (vs := []) (fun i b hb _ => h (i + 1) b (by simpa using hb) (by simp))
+      rw [mvh_nil] at this
+      exact this
+    | cons v vs' =>
+      simp only [den_cons, mvh_cons]
+      have := ih (vs := vs') (fun i b hb hle => h (i + 1) b (by simpa using hb) (by simp at hle ⊢; omega))
+      rw [this]
+
 end Pcore.Object
